@@ -26,11 +26,36 @@ func checkC14(w *Worker) {
 			fi := x.Choose(len(c14Formats), "config:date-format")
 			period := x.Choose(2, "config:period")
 			format := c14Formats[fi]
-			nrec := 1 + x.Choose(maxRec, "input:records")
+			nrec := 0
+			if maxRec > 0 {
+				nrec = 1 + x.Choose(maxRec, "input:records")
+			}
 			ni := names[x.Choose(len(names), "input:name-and-qty")]
 			qi := ni % len(c13Qty)
 			var f absFile
 			k := 0
+			if maxRec == 0 {
+				// large log: 200 days x 4 items, crossing the input and output buffers many times
+				for r := 0; r < 200; r++ {
+					d := dates[0].AddDate(0, 0, r)
+					if r == 7 {
+						d = dates[0] // the period's day occurs twice
+					}
+					f = append(f, absRecord{Header: d.Format(format), Items: []absItem{
+						{IsNote: true, Name: "mood", NoteText: c14NoteTexts[r%len(c14NoteTexts)]},
+						{Name: c13Names[(ni+r)%len(c13Names)], NumText: c13Qty[(qi+r)%len(c13Qty)]},
+						{Name: "plain", NumText: fmt.Sprint(r)},
+						{Name: c13Names[(ni+r)%len(c13Names)], NumText: "0.25"}}})
+					if r == 3 || r == 150 {
+						// a wide day: more distinct foods than a slice's first capacities, early foods repeated late
+						wide := &f[len(f)-1]
+						for j := 0; j < 9+r/10; j++ {
+							wide.Items = append(wide.Items, absItem{Name: fmt.Sprintf("wide/%02d", j), NumText: fmt.Sprint(j + 1)})
+						}
+						wide.Items = append(wide.Items, absItem{Name: "wide/00", NumText: "0.5"}, absItem{Name: "plain", NumText: "2"}, absItem{Name: "wide/07", NumText: "0.25"})
+					}
+				}
+			}
 			for r := 0; r < nrec; r++ {
 				rec := absRecord{Header: dates[r].Format(format)}
 				n := x.Choose(maxItems+1, "input:items")
@@ -160,6 +185,7 @@ func checkC14(w *Worker) {
 	for i := range all {
 		all[i] = i
 	}
+	w.Explore("large-log", ExploreOpts{ShardDepth: 2, Budgets: map[string]int{"layout": 0}}, body(0, []int{0, 3, 5, 13, 20}))
 	w.Explore("names-x-formats-default-layout", ExploreOpts{ShardDepth: 6, Budgets: map[string]int{"layout": 0}}, body(maxRec, all))
 	w.Explore(fmt.Sprintf("layout-dev%d", dev), ExploreOpts{ShardDepth: 6, Budgets: map[string]int{"layout": dev}}, body(1, []int{2, 4}))
 }
